@@ -103,10 +103,8 @@ def run_job(name, run, *, timeout_ms=60000, max_paths=20000, prune=True, prune_t
             tag = f"{name}[p{pi}]"
             cons = solve.base_constraints(C)
             # reachability / vacuity twin: the path must be satisfiable
-            s = solve.mk_solver(min(timeout_ms, feas_timeout_ms))
-            s.add(*cons)
             ts = time.time()
-            feas = str(s.check())
+            feas = solve.path_feasible(C, cons, min(timeout_ms, feas_timeout_ms))
             C.queries += 1
             C.solver_time += time.time() - ts
             if feas == "unsat":
@@ -129,7 +127,8 @@ def run_job(name, run, *, timeout_ms=60000, max_paths=20000, prune=True, prune_t
                     res["skipped_definedness"].append({"tag": dtag, "where": where, "reason": why})
                     proved.append(cond)  # not claimed: later obligations are relative to the operation being defined
                     continue
-                r, dt, mdl = solve.check(C, cond, timeout_ms, inputs=inputs, cons=cons + proved)
+                stamp = C.defd_stamp[di] if di < len(C.defd_stamp) else 10**9
+                r, dt, mdl = solve.check(C, cond, timeout_ms, inputs=inputs, cons=solve.before(cons, stamp) + proved)
                 v = {"obligation": f"{tag}/defined:{dtag}@{where}#{di}", "verdict": r, "time_s": round(dt, 3), "kind": "definedness"}
                 if mdl is not None:
                     v["model"] = mdl
